@@ -14,8 +14,17 @@ import Bng.Gen.FsmIpv6cp
     rca <idspec>         rcn <idspec> <opts>   rcnbad <idspec>   rcj <idspec> <opts>   rcjbad <idspec>
                                                            (idspec: m = lastIdentifier, s = lastIdentifier-1, or a number)
     rtr <id> | rta <id> | coderej <id> <code|-> | protorej <id> <hex|-> | echoreq <id> <hex|-> | other <code> <id>
+    rcr <id> <opts>+trail      the option bytes followed by one stray byte (a malformed request)
+    echoshort <id>             Echo-Request with fewer than 4 data bytes
+    setpeer <hex|->            IPCP SetPeerIP            pool <hex|->   what IPPool.Allocate answers from now on
+    isopened                   => <true|false> <State>   (IsOpened() and GetState())
 
-  observation:   <State> t=<0|1> e=<0|1> <pkts>      pkts: `-` or `;`-joined  CR/<id>/<opts>  (CA CN CJ TR TA XJ PJ EQ ER)
+  observation:   <State> t=<0|1> e=<0|1> b=<0|1> p=<pool calls> cb=<callbacks> <pkts>
+     t  a restart-timer instance is armed        e  ReceivePacket returned an error
+     b  every Configure-Ack sent carries exactly the option BYTES of the request
+     p  calls to the IPPool: A<hex> (Allocate answered), A- (answered nil), R (Release); `-` if none
+     cb invocations of the SetOnStateChange callback: Old>New,…
+     pkts: `-` or `;`-joined  CR/<id>/<opts>  (CA CN CJ TR TA XJ PJ EQ ER)
 -/
 namespace Bng.Drv.NcpDrv
 open Bng Bng.Drv Bng.Ncp
@@ -52,9 +61,18 @@ def showPkt (p : Pkt) : String :=
     else "-"
   s!"{codeName p.code}/{p.id.toNat}/{body}"
 
+def showPool (l : List (Option (List Nat))) : String :=
+  if l.isEmpty then "-" else ",".intercalate (l.map fun
+    | some [] => "A-"
+    | some a => "A" ++ hexBytes a
+    | none => "R")
+
+def showTrans (l : List (St × St)) : String :=
+  if l.isEmpty then "-" else ",".intercalate (l.map fun (a, b) => stName a ++ ">" ++ stName b)
+
 def showObs (s : State) (o : Obs) : String :=
   let pk := if o.out.isEmpty then "-" else ";".intercalate (o.out.map showPkt)
-  s!"{stName s.st} t={if s.armed then 1 else 0} e={if o.err then 1 else 0} {pk}"
+  s!"{stName s.st} t={if s.armed then 1 else 0} e={if o.err then 1 else 0} b=1 p={showPool o.pool} cb={showTrans o.trans} {pk}"
 
 def parseBytes (s : String) : Option (List Nat) :=
   (parseHexBytes s).map fun l => l.map (·.toNat)
@@ -84,11 +102,20 @@ def parsePkt (s : String) : Option Pkt :=
       pure { code := code, id := UInt8.ofNat id, opts := os }
   | _ => none
 
-/-- implementation observation → (state name, packets) -/
-def parseObs (s : String) : Option (String × List Pkt) :=
+def parsePool (s : String) : List (Option (List Nat)) :=
+  if s == "p=-" then [] else
+  ((s.drop 2).toString.splitOn ",").filterMap fun it =>
+    if it == "R" then some none
+    else if it == "A-" then some (some [])
+    else if it.startsWith "A" then (parseBytes (it.drop 1).toString).map some
+    else none
+
+/-- implementation observation → what the monitor looks at -/
+def parseObs (s : String) : Option MObs :=
   match splitTokens s with
-  | [st, _, _, pk] =>
-    if pk == "-" then some (st, []) else ((pk.splitOn ";").mapM parsePkt).map fun l => (st, l)
+  | [st, t, _, b, p, _, pk] =>
+    let mk := fun (l : List Pkt) => ({ st := st, armed := t == "t=1", ackBytesOk := b != "b=0", pool := parsePool p, out := l } : MObs)
+    if pk == "-" then some (mk []) else ((pk.splitOn ";").mapM parsePkt).map mk
   | _ => none
 
 structure DSt where
@@ -113,7 +140,7 @@ def parseCfg (proto : Proto) (toks : List String) : Option Cfg :=
            auth := (optBytes rest "auth").getD [0xc0, 0x23],
            pfc := kv rest "pfc" == some "1", acfc := kv rest "acfc" == some "1",
            localIP := optBytes rest "local", peerIP := optBytes rest "peer",
-           dns1 := optBytes rest "dns1", dns2 := optBytes rest "dns2" }
+           dns1 := optBytes rest "dns1", dns2 := optBytes rest "dns2", pool := kv rest "pool" == some "1" }
   | [] => none
 
 /-- resolve an identifier token against "the identifier of our last Configure-Request" -/
@@ -127,7 +154,11 @@ def parseEv (toks : List String) (last : UInt8) : Option Ev :=
   | ["up"] => some .up | ["down"] => some .down | ["open"] => some .open | ["close"] => some .close
   | ["timeout"] => some .timeout | ["stale"] => some .stale
   | ["sendecho"] => some .sendEcho | ["sendprotorej"] => some .sendProtoRej
-  | ["rcr", i, o] => do let i ← resolveId i last; let o ← parseOpts o; pure (.rcr i o false)
+  | ["rcr", i, o] => do
+    let i ← resolveId i last
+    -- a stray trailing byte makes the option bytes malformed
+    if o.endsWith "+trail" then let o ← parseOpts (o.dropEnd 6).toString; pure (.rcr i o true)
+    else let o ← parseOpts o; pure (.rcr i o false)
   | ["rcrbad", i] => do let i ← resolveId i last; pure (.rcr i [] true)
   | ["rca", i] => do let i ← resolveId i last; pure (.rca i)
   | ["rcn", i, o] => do let i ← resolveId i last; let o ← parseOpts o; pure (.rcn i o false)
@@ -144,47 +175,69 @@ def parseEv (toks : List String) (last : UInt8) : Option Ev :=
     if p == "-" then pure (.protoRej i none) else let p ← parseHex p; pure (.protoRej i (some p))
   | ["echoreq", i, d] => do let i ← resolveId i last; let d ← parseBytes d; pure (.echoReq i d)
   | ["other", c, i] => do let c ← c.toNat?; let i ← resolveId i last; pure (.other c i)
+  | ["echoshort", i] => do let i ← resolveId i last; pure (.other 9 i)
+  | ["setpeer", a] => if a == "-" then some (.setPeer none) else (parseBytes a).map fun b => .setPeer (some b)
+  | ["pool", a] => if a == "-" then some (.poolNext none) else (parseBytes a).map fun b => .poolNext (some b)
   | _ => none
 
 /-- the same operation as the monitor sees it: identifiers are resolved against the last Configure-Request the
     IMPLEMENTATION was seen to send -/
-def monEv (proto : Proto) (toks : List String) (lastCR : Option UInt8) : MEv :=
+def monEv (T : Tables) (proto : Proto) (toks : List String) (lastCR : Option UInt8) : MEv :=
   let cid := fun (tok : String) => (resolveId tok (lastCR.getD 0)).getD 0
+  let lax := fun (h : Handler) => !(T.pre h).contains .parseAbort
   match toks with
+  | ["up"] => .up
+  | ["open"] => .open
   | ["down"] => .down
   | ["close"] => .close
   | ["timeout"] => .timeout
-  | ["rcr", i, o] => .rcr (cid i) ((parseOpts o).getD []) false
+  | ["stale"] => .stale
+  | ["rcr", i, o] =>
+    if o.endsWith "+trail" then .rcr (cid i) [] true else .rcr (cid i) ((parseOpts o).getD []) false
   | ["rcrbad", i] => .rcr (cid i) [] true
   | ["rca", i] => .rca (cid i)
-  | ["rcn", i, _] => .rcnj (cid i) false
-  | ["rcj", i, _] => .rcnj (cid i) false
-  | ["rcnbad", i] => .rcnj (cid i) true
-  | ["rcjbad", i] => .rcnj (cid i) true
+  | ["rcn", i, _] => .rcnj (cid i) true
+  | ["rcj", i, _] => .rcnj (cid i) true
+  | ["rcnbad", i] => .rcnj (cid i) (lax .rcn)
+  | ["rcjbad", i] => .rcnj (cid i) (lax .rcj)
   | ["rtr", i] => .rtr (cid i)
   | ["rta", _] => .rta
   | ["coderej", _, c] =>
-    if proto == .lcp then (match c.toNat? with | some k => if 1 ≤ k ∧ k ≤ 4 then .critRej else .quiet | none => .quiet) else .quiet
-  | ["protorej", _, p] => if proto == .lcp && parseHex p == some 0xc021 then .critRej else .quiet
+    if proto == .lcp then (match c.toNat? with | some k => if 1 ≤ k ∧ k ≤ 4 then .critRej else .peerPkt | none => .peerPkt) else .peerPkt
+  | ["protorej", _, p] => if proto == .lcp && parseHex p == some 0xc021 then .critRej else .peerPkt
   | ["echoreq", i, _] => .echo (cid i)
-  | _ => .quiet
+  | ["echoshort", _] => .peerPkt
+  | ["other", _, _] => .peerPkt
+  | ["setpeer", a] => if a == "-" then .setPeer none else .setPeer (parseBytes a)
+  | _ => .local
 
 def stepFor (T : Tables) (proto : Proto) (st : DSt) (toks : List String) (impl : String) : DSt × LineResult :=
   match toks with
   | "new" :: rest =>
     match parseCfg proto rest with
-    | some c => ({ cfg := some c, model := Ncp.init c, mon := { maxConf := c.maxConf } }, { modelObs := "ok" })
+    | some c => ({ cfg := some c, model := Ncp.init c, mon := { assigned := c.peerIP } }, { modelObs := "ok" })
     | none => (st, { modelObs := "badop" })
   | _ =>
     match st.cfg with
     | none => (st, { modelObs := "badop" })
     | some c =>
+      if toks == ["isopened"] then
+        -- observer: IsOpened() and GetState(); judged like a state report
+        let shown := s!"{decide (st.model.st = .Opened)} {stName st.model.st}"
+        let seen := match splitTokens impl with
+          | [b, nm] => if b == "true" then "Opened" else (if nm == "Opened" then "Opened?" else nm)
+          | _ => "?"
+        let (mon', vs) := Mon.check c st.mon .local { st := seen, armed := false, ackBytesOk := true, pool := [], out := [] }
+        ({ st with mon := { mon' with prev := st.mon.prev } },
+         { modelObs := shown, viols := (vs.map fun (n, d) => (n, "none", d)) ++
+             (if seen == "Opened?" then [("opened-without-agreement", "none", "IsOpened() is false in state Opened")] else []) })
+      else
       match parseEv toks st.model.lastId with
       | none => (st, { modelObs := "badop" })
       | some ev =>
         let (s', o) := Ncp.step T c st.model ev
         let (mon', vs) := match parseObs impl with
-          | some (stNow, out) => Mon.check c st.mon (monEv proto toks st.mon.lastCR) stNow out
+          | some o => Mon.check c st.mon (monEv T proto toks st.mon.lastCR) o
           | none => (st.mon, [])
         ({ st with model := s', mon := mon' },
          { modelObs := showObs s' o, viols := vs.map fun (n, d) => (n, "none", d) })
